@@ -2,6 +2,7 @@
   Line-protocol adapter for the distributor family (d.* ops).
 -/
 import C4E.Distributor
+import C4E.Bridge
 import C4E.Proto
 namespace C4E.Drv.Distr
 open C4E C4E.Distr C4E.Proto C4E.CoinList
@@ -100,7 +101,8 @@ def step (w : W) (toks : List String) : W × String :=
       let w' := { w with world := r.world, faults := [] }
       let inv1 := nonNegativeStates r.world.states
       let inv2 := stateSumMatchesBalance w.env r.world
-      (w', s!"ok states=[{";".intercalate (r.world.states.map showState)}] main={showCoins (nz (r.world.bank.balance w.env.mainAddr))} ev=[{";".intercalate (r.events.map showEvent)}] burned={showCoins (nz r.world.bank.burned)} bal={showBals w'} inv={if inv1 then 1 else 0}{if inv2 then 1 else 0} calls={r.world.callIdx}")
+      let br := (C4E.Bridge.bridge w.env w.params w.world w.faults).show
+      (w', s!"ok br={br} states=[{";".intercalate (r.world.states.map showState)}] main={showCoins (nz (r.world.bank.balance w.env.mainAddr))} ev=[{";".intercalate (r.events.map showEvent)}] burned={showCoins (nz r.world.bank.burned)} bal={showBals w'} inv={if inv1 then 1 else 0}{if inv2 then 1 else 0} calls={r.world.callIdx}")
     | _ => (w, "panic")
   | ["d.update", "full", auth] =>
     match updateFull w.env (auth = "gov") w.pending with
